@@ -87,6 +87,12 @@ fn load_interface_from_paths(
                 package
             )));
         }
+        if !unit.validate_version() {
+            return Err(compile_error(format!(
+                "interface {} was written by another format version",
+                candidate.display()
+            )));
+        }
         if !unit.validate_hash() {
             return Err(compile_error(format!(
                 "interface {} has invalid interface_hash",
